@@ -971,9 +971,12 @@ func init() {
 					// growth: doubling n must not multiply the allocation by more than the model's own growth allows
 					if f.step == 0 && prev[fn] >= 1<<20 && prevModel > 0 {
 						g, mg := float64(m.alloc)/float64(prev[fn]), bound/K/prevModel
+						// the property allows a low-degree polynomial: a doubling may multiply the cost by 4 (quadratic; 15 % for
+						// noise) even where the model, whose constants were measured on this implementation, predicts less —
+						// a refactoring that removes a large linear constant exposes the quadratic part without changing it
 						lim := 1.6 * mg
-						if lim < 2.8 {
-							lim = 2.8
+						if lim < 4.6 {
+							lim = 4.6
 						}
 						if r := int(g * 100); r > res.Distribution["max_growth_x100_"+f.name] {
 							res.Distribution["max_growth_x100_"+f.name] = r
